@@ -11,8 +11,10 @@
         with CR or LF gives a local error with nothing written; on MAIL / RCPT
         lines every SP-separated parameter after the address is a known
         keyword whose extension key is in the EHLO reply in force (stated by
-        the generator: (adv ..)); RequireTLS / UTF8 requested without the key
-        => local error and no MAIL line.
+        the generator: (adv ..); BODY=BINARYMIME needs BINARYMIME, any other
+        BODY value 8BITMIME); RequireTLS / UTF8 / a Body value requested
+        without its key, or an unknown Body value => local error and no MAIL
+        line.
    C18  LMTP: the callbacks of a Close are exactly (recipient, scripted reply)
         for the recipients whose RCPT returned nil since the last MAIL, in
         order; without callback Close returns the first negative reply; a
@@ -272,9 +274,12 @@ Fixpoint kw_key (kw : bytes) (t : list (bytes * bytes)) : option bytes :=
   | (k, e) :: r => if bytes_eqb k kw then Some e else kw_key kw r
   end.
 
+(* BODY=BINARYMIME is licensed by BINARYMIME, every other BODY value by 8BITMIME *)
 Definition param_ok (adv : list bytes) (p : bytes) : bool :=
-  let kw := match cut_byte "=" p with Some (k, _) => k | None => p end in
-  match kw_key kw kw_table with
+  let '(kw, v) := match cut_byte "=" p with Some (k, v) => (k, v) | None => (p, []) end in
+  let key := if bytes_eqb kw (bs "BODY") && bytes_eqb v (bs "BINARYMIME") then Some (bs "BINARYMIME")
+             else kw_key kw kw_table in
+  match key with
   | Some e => existsb (bytes_eqb e) adv
   | None => false
   end.
@@ -294,6 +299,16 @@ Definition ann_adv (ann : list sx) : option (list bytes) :=
   match assoc1 "adv" ann with Some l => cl_list sx_bytes l | None => None end.
 
 Definition has_key (adv : list bytes) (k : string) : bool := existsb (bytes_eqb (bs k)) adv.
+
+(* a requested Body that cannot be sent: its extension was not advertised, or
+   it is none of the three values *)
+Definition body_refused (adv : list bytes) (m : mail_opts) : bool :=
+  match mo_body m with
+  | [] => false
+  | b => if bytes_eqb b (bs "7BIT") || bytes_eqb b (bs "8BITMIME") then negb (has_key adv "8BITMIME")
+         else if bytes_eqb b (bs "BINARYMIME") then negb (has_key adv "BINARYMIME")
+         else true
+  end.
 
 (* shape of the lines of one call after the hello lines *)
 Definition own_lines_ok (k : call) (ann : list sx) (o : cobs) (own : list bytes) : bool :=
@@ -325,7 +340,8 @@ Definition own_lines_ok (k : call) (ann : list sx) (o : cobs) (own : list bytes)
          end)
         && (match opts, ann_adv ann with
             | Some m, Some adv =>
-                if (mo_requiretls m && negb (has_key adv "REQUIRETLS"))
+                if body_refused adv m
+                   || (mo_requiretls m && negb (has_key adv "REQUIRETLS"))
                    || (mo_utf8 m && negb (has_key adv "SMTPUTF8"))
                 then none && res_is_local (ob_r o) else true
             | _, _ => true
